@@ -141,3 +141,13 @@ func spec_nz(table [][]int, i int, k int) bool {
 //@ loop 12: invariant forall j2 int :: 0 <= j2 && j2 < j ==> row[j2] == before(row)[j2] - 1
 //@ loop 12: invariant forall j2 int :: j <= j2 && j2 < len(row) ==> row[j2] == before(row)[j2]
 //@ loop 12: decreases len(row) - j
+
+// ---------------------------------------------------------------------------------------------
+// C18: names shown in the diagram. A character literal 'c' is stored as "$operator" + c and is shown as 'c' ; every
+// other name is shown unchanged. (EscapeDotGraph escapes < and > for DOT record labels: two library ReplaceAll calls, pinned.)
+//@ func RemoveTempName
+//@ props C18
+//@ results out
+//@ ensures [C18] len(in) > 9 && in[0:9] == "$operator" ==> out == "'" + in[9:] + "' "
+//@ ensures [C18] !(len(in) > 9 && in[0:9] == "$operator") ==> out == in
+//@ modifies nothing
